@@ -16,7 +16,6 @@ import (
 	"context"
 	"fmt"
 	"os"
-	"sort"
 	"testing"
 
 	"github.com/0chain/common/core/logging"
@@ -150,7 +149,18 @@ func (e *c04env) readable(i int, keys []string) error {
 }
 
 func TestGocvBoundedC04(t *testing.T) {
-	keys := []string{"0a01", "0a02", "0b01", "0b02"}
+	// two key families: fixed-length keys, and keys where one is a prefix of others (a value on a branch)
+	c04family(t, []string{"0a01", "0a02", "0b01", "0b02"}, "fixed-length keys")
+	c04family(t, []string{"12", "1234", "1256", "34"}, "prefix-related keys")
+	fmt.Printf("GOCV-BOUNDED cases=%d failures=%d scope=\"two key families ({0a01,0a02,0b01,0b02}; {12,1234,1256,34} with a value on a branch); 3 rounds; round 2: all sequences of <= 3 single-operation child transactions (2 values, delete), merged (thorough: or discarded); crash at every write of round 2's RecordDeadNodes+SaveChanges stream; reopen on the store alone at every saved root\"\n", c04cases, c04fails)
+	if c04fails > 0 {
+		t.Fail()
+	}
+}
+
+var c04cases, c04fails int
+
+func c04family(t *testing.T, keys []string, famName string) {
 	vals := []string{"50", "60"}
 	var ops []c04op
 	for _, k := range keys {
@@ -168,12 +178,11 @@ func TestGocvBoundedC04(t *testing.T) {
 			ops = append(ops, o)
 		}
 	}
-	cases, fails := 0, 0
 	fail := func(seq []c04op, format string, a ...interface{}) {
-		if fails < 5 {
-			fmt.Printf("GOCV-FAIL round 2 = %v: %s\n", seq, fmt.Sprintf(format, a...))
+		if c04fails < 5 {
+			fmt.Printf("GOCV-FAIL %s, round 2 = %v: %s\n", famName, seq, fmt.Sprintf(format, a...))
 		}
-		fails++
+		c04fails++
 	}
 	dir := t.TempDir()
 	newEnv := func(tag string) (*c04env, error) {
@@ -182,7 +191,7 @@ func TestGocvBoundedC04(t *testing.T) {
 			return nil, err
 		}
 		e := &c04env{pndb: pndb}
-		b, m, err := e.round(1, []c04op{{key: "0a01", val: "10"}, {key: "0a02", val: "20"}, {key: "0b01", val: "30"}})
+		b, m, err := e.round(1, []c04op{{key: keys[0], val: "10"}, {key: keys[1], val: "20"}, {key: keys[2], val: "30"}})
 		if err != nil {
 			return nil, err
 		}
@@ -190,7 +199,7 @@ func TestGocvBoundedC04(t *testing.T) {
 	}
 	id := 0
 	runSeq := func(seq []c04op) {
-		cases++
+		c04cases++
 		defer func() {
 			if r := recover(); r != nil {
 				fail(seq, "panic: %v", r)
@@ -266,7 +275,7 @@ func TestGocvBoundedC04(t *testing.T) {
 				return
 			}
 		}
-		b3, m3, err := e.round(3, []c04op{{key: "0b02", val: "77"}, {key: "0a01"}})
+		b3, m3, err := e.round(3, []c04op{{key: keys[3], val: "77"}, {key: keys[0]}})
 		if err != nil {
 			fail(seq, "round 3 on the saved root: %v", err)
 			return
@@ -295,9 +304,4 @@ func TestGocvBoundedC04(t *testing.T) {
 		}
 	}
 	rec(nil)
-	sort.Strings(keys)
-	fmt.Printf("GOCV-BOUNDED cases=%d failures=%d scope=\"3 rounds; round 2: all sequences of <= 3 single-operation child transactions over keys %v, values %v%s; crash at every write of round 2's RecordDeadNodes+SaveChanges stream; reopen on the store alone at every saved root\"\n", cases, fails, keys, vals, map[bool]string{true: ", merged or discarded", false: ", all merged"}[thorough])
-	if fails > 0 {
-		t.Fail()
-	}
 }
